@@ -358,8 +358,20 @@ func keyHasKind(k protoreflect.MapKey, kind protoreflect.Kind) bool {
 	return false
 }
 
-// Equal reports whether two reflected values are exactly the same value.
-func Equal(a, b protoreflect.Value) bool {
+// Equal reports whether two reflected values are exactly the same value. Values of containers
+// whose element or key types differ (two maps of different key kinds, lists of different element
+// kinds) are different values: the protobuf runtime panics when asked to look a key of one kind up
+// in a map of another, which is answered with "not equal" here.
+func Equal(a, b protoreflect.Value) (eq bool) {
+	defer func() {
+		if recover() != nil {
+			eq = false
+		}
+	}()
+	return equal(a, b)
+}
+
+func equal(a, b protoreflect.Value) bool {
 	if a.IsValid() != b.IsValid() {
 		return false
 	}
@@ -377,7 +389,7 @@ func Equal(a, b protoreflect.Value) bool {
 			return false
 		}
 		for i := 0; i < x.Len(); i++ {
-			if !Equal(x.Get(i), y.Get(i)) {
+			if !equal(x.Get(i), y.Get(i)) {
 				return false
 			}
 		}
@@ -389,7 +401,7 @@ func Equal(a, b protoreflect.Value) bool {
 		}
 		eq := true
 		x.Range(func(k protoreflect.MapKey, v protoreflect.Value) bool {
-			if !y.Has(k) || !Equal(v, y.Get(k)) {
+			if !y.Has(k) || !equal(v, y.Get(k)) {
 				eq = false
 			}
 			return eq
